@@ -292,6 +292,11 @@ let () =
       | ["obs"; "same"] ->
           (* implementation's dump equals its previous one *)
           check_state !last_impl_s
+      | "obs" :: "panic" :: rest ->
+          let kind = (match String.split_on_char ' ' !last_op with k :: _ -> k | [] -> "?") in
+          oracle "C07" ("panic:" ^ kind) (Printf.sprintf "the implementation panicked during the operation after [%s]: %s" !last_op (String.concat " " rest));
+          oracle "C08" ("panic:" ^ kind) (Printf.sprintf "the implementation panicked during the operation after [%s]: %s" !last_op (String.concat " " rest));
+          diverged := true
       | ["quiescent"] -> quiescent := true
       | ["end"] -> ()
       | [""] | [] -> ()
